@@ -19,12 +19,14 @@ def main():
             "level_note": c["note"],
             "technique": c["technique"],
         })
+    import subprocess
+    HOOK_COMMITS = [l.split()[0] for l in subprocess.run(["git", "-C", "/repo", "log", "--format=%H %s"], capture_output=True, text=True).stdout.splitlines() if " verif hook" in l]
     m = {
         "version": 1,
         "setup_cmd": "python3 tools/setup.py",
-        "hooks": {"guard": "MICM_VERIF", "enable": "the harness is compiled with -DMICM_VERIF against /repo/include; no guarded source changes exist (tables are read through derived classes / pointer-to-member, integrators observed through wrapper policies)",
+        "hooks": {"guard": "MICM_VERIF", "enable": "the harness is compiled with -DMICM_VERIF against /repo/include; one guarded, add-only source change exists: include/micm/jit/jit_function.hpp gains micm::verif::JitIrSink() and, in JitFunction::Generate, appends the module's textual IR to the sink when one is installed (used by the C18 program tie). Everything else is observed without source changes (tables through derived classes / pointer-to-member, integrators through wrapper policies)",
                   "baseline_off_cmd": "cmake -G Ninja -S /repo -B /repo/_build && cmake --build /repo/_build -j16 && ctest --test-dir /repo/_build -j8 --timeout 900",
-                  "source_commits": [], "add_only": True},
+                  "source_commits": HOOK_COMMITS, "add_only": True},
         "engines": [{"name": "lean-model+correspondence", "path": "/verif/lean", "serves_properties": sorted(CLAIMS.keys()),
                      "kind_free_text": "Lean 4 model (lean/Micm/Model) with property theorems (lean/Micm/Properties), header translator (tools/gen_lean.py), bit-exact C++ correspondence harness (harness/), exact-arithmetic failing-input oracles (tools/oracles.py)"}],
         "checks": checks,
